@@ -397,7 +397,7 @@ func StrictFloatLaxEqual[T StrictFloat](left T, right Value) bool {
 	if right.IsReference() {
 		switch r := right.AsReference().(type) {
 		case *BigInt:
-			return T(left) == T(r.ToFloat())
+			return EqBigIntFloat64(r.ToGoBigInt(), float64(left))
 		case *BigFloat:
 			if r.IsNaN() {
 				return false
@@ -405,9 +405,9 @@ func StrictFloatLaxEqual[T StrictFloat](left T, right Value) bool {
 			iBigFloat := (&big.Float{}).SetFloat64(float64(left))
 			return iBigFloat.Cmp(r.AsGoBigFloat()) == 0
 		case Int64:
-			return T(left) == T(r)
+			return EqInt64Float64(int64(r), float64(left))
 		case UInt64:
-			return T(left) == T(r)
+			return EqUint64Float64(uint64(r), float64(left))
 		case Float64:
 			return float64(left) == float64(r)
 		default:
@@ -418,37 +418,37 @@ func StrictFloatLaxEqual[T StrictFloat](left T, right Value) bool {
 	switch right.ValueFlag() {
 	case SMALL_INT_FLAG:
 		r := right.AsSmallInt()
-		return T(left) == T(r)
+		return EqInt64Float64(int64(r), float64(left))
 	case FLOAT_FLAG:
 		r := right.AsFloat()
 		return float64(left) == float64(r)
 	case INT64_FLAG:
 		r := right.AsInlineInt64()
-		return T(left) == T(r)
+		return EqInt64Float64(int64(r), float64(left))
 	case INT32_FLAG:
 		r := right.AsInt32()
-		return T(left) == T(r)
+		return EqInt64Float64(int64(r), float64(left))
 	case INT16_FLAG:
 		r := right.AsInt16()
-		return T(left) == T(r)
+		return EqInt64Float64(int64(r), float64(left))
 	case INT8_FLAG:
 		r := right.AsInt8()
-		return T(left) == T(r)
+		return EqInt64Float64(int64(r), float64(left))
 	case UINT_FLAG:
 		r := right.AsUInt()
-		return T(left) == T(r)
+		return EqUint64Float64(uint64(r), float64(left))
 	case UINT64_FLAG:
 		r := right.AsInlineUInt64()
-		return T(left) == T(r)
+		return EqUint64Float64(uint64(r), float64(left))
 	case UINT32_FLAG:
 		r := right.AsUInt32()
-		return T(left) == T(r)
+		return EqUint64Float64(uint64(r), float64(left))
 	case UINT16_FLAG:
 		r := right.AsUInt16()
-		return T(left) == T(r)
+		return EqUint64Float64(uint64(r), float64(left))
 	case UINT8_FLAG:
 		r := right.AsUInt8()
-		return T(left) == T(r)
+		return EqUint64Float64(uint64(r), float64(left))
 	case FLOAT64_FLAG:
 		r := right.AsInlineFloat64()
 		return float64(left) == float64(r)
@@ -485,7 +485,7 @@ func StrictSignedIntLaxEqual[T StrictSignedInt](left T, right Value) bool {
 			}
 			return int64(left) == int64(r)
 		case Float64:
-			return float64(left) == float64(r)
+			return EqInt64Float64(int64(left), float64(r))
 		default:
 			return false
 		}
@@ -497,7 +497,7 @@ func StrictSignedIntLaxEqual[T StrictSignedInt](left T, right Value) bool {
 		return int64(left) == int64(r)
 	case FLOAT_FLAG:
 		r := right.AsFloat()
-		return float64(left) == float64(r)
+		return EqInt64Float64(int64(left), float64(r))
 	case INT64_FLAG:
 		r := right.AsInlineInt64()
 		return int64(left) == int64(r)
@@ -533,10 +533,10 @@ func StrictSignedIntLaxEqual[T StrictSignedInt](left T, right Value) bool {
 		return int64(left) == int64(r)
 	case FLOAT64_FLAG:
 		r := right.AsInlineFloat64()
-		return float64(left) == float64(r)
+		return EqInt64Float64(int64(left), float64(r))
 	case FLOAT32_FLAG:
 		r := right.AsFloat32()
-		return float64(left) == float64(r)
+		return EqInt64Float64(int64(left), float64(r))
 	default:
 		return false
 	}
@@ -567,7 +567,7 @@ func StrictUnsignedIntLaxEqual[T StrictUnsignedInt](left T, right Value) bool {
 		case UInt64:
 			return uint64(left) == uint64(r)
 		case Float64:
-			return float64(left) == float64(r)
+			return EqUint64Float64(uint64(left), float64(r))
 		default:
 			return false
 		}
@@ -582,7 +582,7 @@ func StrictUnsignedIntLaxEqual[T StrictUnsignedInt](left T, right Value) bool {
 		return int64(left) == int64(r)
 	case FLOAT_FLAG:
 		r := right.AsFloat()
-		return float64(left) == float64(r)
+		return EqUint64Float64(uint64(left), float64(r))
 	case INT64_FLAG:
 		r := right.AsInlineInt64()
 		if uint64(left) > math.MaxInt64 {
@@ -624,10 +624,10 @@ func StrictUnsignedIntLaxEqual[T StrictUnsignedInt](left T, right Value) bool {
 		return left == T(r)
 	case FLOAT64_FLAG:
 		r := right.AsInlineFloat64()
-		return float64(left) == float64(r)
+		return EqUint64Float64(uint64(left), float64(r))
 	case FLOAT32_FLAG:
 		r := right.AsFloat32()
-		return float64(left) == float64(r)
+		return EqUint64Float64(uint64(left), float64(r))
 	default:
 		return false
 	}
